@@ -211,10 +211,28 @@ var ztpStrings = []string{"Arista;DCS-7050S-64;01.23;JPE12221671", "Arista;", "C
 	"ZPESystems:", "NVOS##MMM1234##MM1234X56ABC", "NVOS##", "1271-23422Z11-123", "1271-", "1271", "Juniper-ptx1000-DD576", "Juniper-qfx10002-36q-DN817",
 	"Juniper-", "JUNIPER", "Ethernet1/2:100", "Ethernet3/17/1", "et-1/0/61", "Port-Channel23", "ge-0/0/0.0", "\x00\x04Ethernet1", ""}
 
+// the SN / PID field grammar of Cisco's vendor-identifying vendor class, with its near misses
+var ciscoVIVCFields = []string{"SN:0;PID:R-IOSXRV9000-CC", "PID:x;SN:1;SN:2", "SN:0;PID", "SN:FOC1234;PID", "SN", "PID", "SN;PID", "SN:a:b", "", ";", ";;", "SN:;PID:",
+	" SN:1 ; PID:2 ", "FOO:1", "SN:5", "SN:5;", ":", "::", "SN::", "PID:x;", "sn:1;pid:2"}
+
+func clip(s string, n int) string {
+	if len(s) > n {
+		return s[:n]
+	}
+	return s
+}
+
 func ztpCorpus(rng *rand.Rand) (v4 [][]byte, v6 [][]byte) {
-	for _, s := range ztpStrings {
+	// the vendor strings, interface names and field lists drawn from the grammars of the extractors' case tables
+	// (the generators of the extended conformance), in every place the extractors read them from
+	all := append([]string{}, ztpStrings...)
+	all = append(all, ciscoVIVCFields...)
+	for k := 0; k < 60; k++ {
+		all = append(all, ztpString(rng, k%2 == 0), circuitString(rng))
+	}
+	for _, s := range all {
 		p, _ := dhcpv4.New(dhcpv4.WithOption(dhcpv4.OptClassIdentifier(s)), dhcpv4.WithOption(dhcpv4.OptHostName("host-"+s)),
-			dhcpv4.WithOption(dhcpv4.OptVIVC(dhcpv4.VIVCIdentifier{EntID: 9, Data: []byte(s)}, dhcpv4.VIVCIdentifier{EntID: 30065, Data: []byte(s)})),
+			dhcpv4.WithOption(dhcpv4.OptVIVC(dhcpv4.VIVCIdentifier{EntID: 9, Data: []byte(clip(s, 200))}, dhcpv4.VIVCIdentifier{EntID: 30065, Data: []byte(clip(s, 40))})),
 			dhcpv4.WithOption(dhcpv4.OptRelayAgentInfo(dhcpv4.OptGeneric(dhcpv4.AgentCircuitIDSubOption, []byte(s)), dhcpv4.OptGeneric(dhcpv4.AgentRemoteIDSubOption, []byte(s)))))
 		v4 = append(v4, p.ToBytes())
 		// every enterprise number x option shape x placement (plain message, message inside a relay, the vendor
